@@ -87,13 +87,20 @@ pub fn parse_arguments(to_parse: &str) -> Result<Vec<Unifiable>, String> {
             argument.push(ch);
             if ch == '"' {
                 open_quote = false;
-                num_quotes += 1;
+                if round_depth == 0 && square_depth == 0 { num_quotes += 1; }
             }
         }
         else {
+            // Between double quotes, brackets and parentheses are
+            // ordinary characters, also inside an argument.
+            if ch == '"' && (round_depth != 0 || square_depth != 0) {
+                argument.push(ch);
+                has_non_digit = true;
+                open_quote = true;
+            }
             // Brackets, parentheses and what is between them are not
             // digits: (1)2 is not a number (as in parse_term()).
-            if ch == '[' {
+            else if ch == '[' {
                 argument.push(ch);
                 has_non_digit = true;
                 square_depth += 1;
@@ -447,7 +454,13 @@ fn unescape(chrs: &Vec<char>) -> (String, usize) {
     let mut i = 0;
     while i < chrs.len() {
         let ch = chrs[i];
-        if open_quote { if ch == '"' { open_quote = false; num_quotes += 1; } }
+        if open_quote {
+            if ch == '"' {
+                open_quote = false;
+                if round == 0 && square == 0 { num_quotes += 1; }
+            }
+        }
+        else if ch == '"' && (round != 0 || square != 0) { open_quote = true; }
         else if ch == '[' { square += 1; }
         else if ch == ']' { square -= 1; }
         else if ch == '(' { round += 1; }
